@@ -2,6 +2,7 @@ import RadicaleProofs.Fold
 import RadicaleProofs.Export
 import RadicaleProofs.BulkNames
 import RadicaleProofs.TextValue
+import RadicaleProofs.Charset
 /-
   C14 — calendar objects and contacts come back exactly as they were stored   (partial).
 
@@ -114,6 +115,55 @@ example : readFirst "abc\\".toList = "abc\\eof".toList := by decide +kernel
 example : readFirst (escape "a,b;c\\d\ne\"f".toList) = "a,b;c\\d\ne\"f".toList := by decide +kernel
 
 end TextValue
+
+/-! ### the charset a client declares for its body (model RadicaleModel/Charset.lean; `decode_request` after fix F31) -/
+
+section Charset
+open Radicale.Charset
+
+/-- **neither the spelling of the parameter name nor that of the label matters**: two Content-Type headers that differ
+    only in letter case name the same charset -/
+theorem charset_label_ignores_case (ct ct' : Str) (h : lower ct = lower ct') : label true ct = label true ct' := by
+  simp [label, h]
+
+/-- **nor does the position of the parameter**: whatever stands before the first `charset=` (in any letter case) — the
+    media type, other parameters, blanks — the label is what follows it up to the next ";", in lower case, stripped -/
+theorem charset_label_position (pre name v post : Str) (hname : lower name = key) (hv : ';' ∉ lower v)
+    (hpre : ∀ k, k < (lower pre).length → afterPrefix key ((lower pre ++ (key ++ (lower v ++ ';' :: lower post))).drop k) = none) :
+    label true (pre ++ (name ++ (v ++ ';' :: post))) = some (BasicHeader.pyStrip (lower v)) := by
+  have hl : lower (pre ++ (name ++ (v ++ ';' :: post))) = lower pre ++ (key ++ (lower v ++ ';' :: lower post)) := by
+    rw [lower_append, lower_append, lower_append, hname]
+    have : Charset.lower (';' :: post) = ';' :: Charset.lower post := by
+      show (';' :: post).map Char.toLower = ';' :: post.map Char.toLower
+      rw [List.map_cons]
+      rfl
+    rw [this]
+  have htake : (lower v ++ ';' :: lower post).takeWhile (· != ';') = lower v := by
+    generalize lower v = w at hv
+    induction w with
+    | nil => simp
+    | cons a t ih =>
+      have ha : a ≠ ';' := fun e => hv (e ▸ List.mem_cons_self)
+      simp [ha, ih (fun hm => hv (List.mem_cons_of_mem _ hm))]
+  simp only [label, if_true, hl]
+  rw [afterFirst_first key (lower pre) _ hpre]
+  simp [htake]
+
+/-- Finding F31 as a theorem: before the fix the capitalised parameter name was not found at all — the declared charset
+    was ignored and the body went through the fall-backs -/
+theorem f31_capitalised_parameter_was_ignored :
+    label false "text/calendar; Charset=iso-8859-2".toList = none ∧
+    label true "text/calendar; Charset=iso-8859-2".toList = some "iso-8859-2".toList ∧
+    label true "text/calendar; component=VEVENT; CHARSET=ISO-8859-2 ; x=y".toList = some "iso-8859-2".toList := by decide +kernel
+
+-- non-vacuity of `charset_label_position`: the hypotheses hold for an ordinary header
+example : lower "Charset=".toList = key ∧ ';' ∉ lower "Windows-1252".toList ∧
+    (∀ k, k < (lower "text/calendar; component=VEVENT; ".toList).length →
+      afterPrefix key ((lower "text/calendar; component=VEVENT; ".toList ++ (key ++ (lower "Windows-1252".toList ++ ';' :: lower " x=y".toList))).drop k) = none) := by
+  refine ⟨by decide, by decide, ?_⟩
+  decide +kernel
+
+end Charset
 
 /-! ### whole-collection upload: the names the objects are stored under (`_upload_all_nonatomic`), model
     RadicaleModel/BulkNames.lean.  "Preserves the set of objects" needs, below all text coding, that no object of the
